@@ -221,7 +221,7 @@ class Check:
         cmd = [comp] + (["-std=gnu++17"] if cxx else ["-std=gnu11"]) + (SAN if san else ["-O1", "-g"]) + \
               ["-I", os.path.join(REPO, "include"), "-I", os.path.join(REPO, "src"),
                "-I", os.path.join(VERIF, "harness")] + FEATURES + [GUARD] + list(flags) + \
-              [s if os.path.isabs(s) else os.path.join(VERIF, "harness", s) for s in sources] + \
+              [s if (os.path.isabs(s) or not os.path.exists(os.path.join(VERIF, "harness", s))) else os.path.join(VERIF, "harness", s) for s in sources] + \
               ["-o", exe] + list(libs)
         r = sh(cmd)
         if r.returncode != 0:
